@@ -378,7 +378,7 @@ func TestC05ARace(t *testing.T) {
 }
 
 func TestC05A(t *testing.T) {
-	evid.Extra("rule", "C05A: charts with 1-4 template files per chart (1-3 documents each, hooks with weights, unknown kinds), partials, 0-3 subcharts on two levels each with or without NOTES.txt, SubNotes on/off, built from a grammar of snippets limited to functions documented as deterministic (ranged maps, toYaml/toJson/fromYaml, Files.Get/Glob/Lines/AsConfig, include, tpl, merge, pick, sha256sum, set on shared values read by other files, fail, .Capabilities.APIVersions.Has / KubeVersion), rendered under generated release options (extra API versions, kube version). Oracles: 6 renders of freshly built copies are identical (manifest, hooks with order, notes, or the error text); 2 renders with templates, files, dependencies and the values map loaded in permuted order equal the first; a render of the same chart under OTHER release options in between changes nothing; 8 concurrent renders of private copies, next to 8 renders under other release options, equal the first (TestC05ARace: the same in a race-detector binary). Non-trivial = at least two template files and a ranged map, several NOTES files or a subchart; distinct by the chart.")
+	evid.Extra("rule", "C05A: charts with 1-4 template files per chart (1-3 documents each, hooks with weights, unknown kinds), partials, 0-3 subcharts on two levels each with or without NOTES.txt, SubNotes on/off, a crds/ file in every chart and --include-crds in a third of the cases, --skip-schema-validation in a third, subcharts named so that load order is not alphabetical, built from a grammar of snippets limited to functions documented as deterministic (ranged maps, toYaml/toJson/fromYaml, Files.Get/Glob/Lines/AsConfig, include, tpl, merge, pick, sha256sum, set on shared values read by other files, fail, .Capabilities.APIVersions.Has / KubeVersion), rendered under generated release options (extra API versions, kube version). Oracles: 6 renders of freshly built copies are identical (manifest, hooks with order, notes, or the error text); 2 renders with templates, files, dependencies and the values map loaded in permuted order equal the first; the same chart OBJECT rendered three times, and once more after it was rendered under other release options (other API versions, kube version, schema validation switched the other way), equals the first; a render of the same chart under OTHER release options in between changes nothing, nor does a render of another chart that fails half way through a named template (the load-order clause is judged without the CRD section, which follows the order in which the chart holds its dependencies); 8 concurrent renders of private copies, next to 8 renders under other release options, equal the first (TestC05ARace: the same in a race-detector binary). Non-trivial = at least two template files and a ranged map, several NOTES files or a subchart; distinct by the chart.")
 	evid.Extra("assumptions", []string{"functions documented as random / time / cluster dependent (now, rand*, uuidv4, gen*, htpasswd, encrypt*, lookup) and unsorted keys/values are not in the grammar: a chart using them is nondeterministic by its own doing"})
 	rapid.Check(t, c05AProp)
 }
